@@ -31,8 +31,10 @@ TRANSFORMS = {
     # rewrites its input file and prints nothing: with --in-place the result is the file, without it the (empty) output
     "in_keep3000": (H + "/keep3000.sh $IN", lambda b: b[:3000]),
     "failodd": (H + "/failodd.sh", lambda b: b[:64] if len(b) <= 64 or b[64] % 2 == 0 else None),
+    # the same, but the process dies from a signal instead of exiting with a status
+    "killodd": (H + "/killodd.sh", lambda b: b[:64] if len(b) <= 64 or b[64] % 2 == 0 else None),
 }
-UNSAMPLED_TRANSFORMS = {"failodd", "in_keep3000"}
+UNSAMPLED_TRANSFORMS = {"failodd", "killodd", "in_keep3000"}
 
 
 def sample_opts(r, allow_transform=True, allow_rf=True, allow_links=True, allow_cache=True):
